@@ -403,12 +403,34 @@ func runC18Ping(c *Ctx) {
 			time.Sleep(2 * time.Millisecond)
 			mc.Resume()
 			if !waitCh(floodDone) {
+				if mc.Closed() {
+					// nothing ended this connection: the client gave it up while it owed PONGs
+					c.R.Violate(rig.Violation{Sig: "c18|connection-given-up-while-pinged", Detail: "the client closed the connection while the server was pinging it and the application was sending (no fault was injected): the PONGs owed are never sent", Case: Case("ping", idx)})
+					if c.R.NumViolations() > 10 {
+						return
+					}
+					continue
+				}
 				c.R.Inconcl(fmt.Sprintf("%s: flooding goroutine did not finish", Case("ping", idx)))
 				return
 			}
 		}
 		okM := s.FgMarker(mc) && s.WireMarker(mc)
 		if !okM {
+			if mc.Closed() {
+				c.R.Violate(rig.Violation{Sig: "c18|connection-given-up-while-pinged", Detail: "the client closed the connection while the server was pinging it (no fault was injected): the PONGs owed are never sent", Case: Case("ping", idx)})
+				if c.R.NumViolations() > 10 {
+					return
+				}
+				continue
+			}
+			if ds := rig.ProveDead(WaitShort); ds.Dead {
+				c.R.Violate(rig.Violation{Sig: "c18|pings-unanswered|" + ds.Signature, Detail: "after a stream of PINGs the client no longer answers (dead state " + ds.Signature + ")", Case: Case("ping", idx)})
+				if c.R.NumViolations() > 10 {
+					return
+				}
+				continue
+			}
 			c.R.Inconcl(fmt.Sprintf("%s: marker not reached", Case("ping", idx)))
 			return
 		}
